@@ -525,7 +525,32 @@ TConstsChecks(e) ==
 TGeometryChecks(e) ==
   {<<"shift", \A s \in Sq : \A df \in -8..8 : \A dr \in -8..8 :
                 e.shifts[s + 1][(df + 8) * 17 + (dr + 8) + 1] = Shift(s, df, dr)>>,
-   <<"add", \A s \in Sq : e.adds[s + 1] = SortedSeq({d \in -70..70 : s + d \in 0..63})>>}
+   <<"add", \A s \in Sq : e.adds[s + 1] = SortedSeq({d \in -70..70 : s + d \in 0..63})>>,
+   \* huge offsets (|delta| >= 2^32 ... 2^63) always leave the board
+   <<"shift_by_huge_offsets_leaves_the_board", e.extreme_on_board = <<>> /\ e.extreme_tried > 0>>}
+
+\* the bitboard iterator against the ascending sequence of its squares (the model of every adaptor)
+BBIterChecks(e) ==
+  {<<"iterator_protocol",
+      \A i \in 1..Len(e.rows) : LET r == e.rows[i]  q == SortedSeq(SeqToSet(r.x))  len == Len(q)  n == r.n
+                                     at(k) == IF k >= 1 /\ k <= len THEN q[k] ELSE -1 IN
+         /\ r.nth = at(n + 1)
+         \* after nth(n): the next element, or nothing at all if nth ran off the end (the iterator is exhausted)
+         /\ r.then_next = (IF n + 1 <= len THEN at(n + 2) ELSE -1)
+         /\ r.then_count = (IF n + 2 <= len THEN len - (n + 2) ELSE 0)
+         /\ r.count = len /\ r.last = at(len) /\ (len = 0 => r.last = -1)
+         /\ r.hint_lo <= len /\ (r.hint_hi = -1 \/ r.hint_hi >= len)
+         /\ r.skip = SubSeq(q, n + 1, len)
+         /\ r.take = SubSeq(q, 1, IF n < len THEN n ELSE len)
+         /\ r.step_by = [k \in 1..((len + n) \div (n + 1)) |-> q[(k - 1) * (n + 1) + 1]]
+         /\ r.min = at(1) /\ r.max = (IF len = 0 THEN -1 ELSE q[len])>>}
+
+\* a move list printed in UCI notation (position-independent): tokens joined by single spaces
+UciListChecks(e) ==
+  LET ms == [i \in 1..Len(e.moves) |-> MoveOfJson(e.moves[i])] IN
+  {<<"no_panic", ~("panic" \in DOMAIN e)>>,
+   <<"uci_list_text", ("panic" \in DOMAIN e) \/ e.text = JoinWith([i \in 1..Len(ms) |-> UciOf(ms[i])], <<32>>, 1)>>,
+   <<"uci_list_rebuilds_equal_chain", ("panic" \in DOMAIN e) \/ e.rebuilt_eq>>}
 
 BBBinaryChecks(e) ==
   {<<"binary_set_algebra",
@@ -568,6 +593,8 @@ EventChecks(e) ==
     [] e.ev = "bb_binary" -> BBBinaryChecks(e)
     [] e.ev = "bb_unary" -> BBUnaryChecks(e)
     [] e.ev = "bb_deposit" -> BBDepositChecks(e)
+    [] e.ev = "bb_iter" -> BBIterChecks(e)
+    [] e.ev = "ucilist" -> UciListChecks(e)
     [] e.ev = "fen" -> FenChecks(e)
     [] e.ev = "fenparse" -> FenParseChecks(e)
     [] e.ev = "san" -> SanChecks(e)
